@@ -211,6 +211,15 @@ def _hook_delta(interp, fi, recv, args, kwargs, res, ev):
     return res
 
 
+def _hook_pair(interp, fi, recv, args, kwargs, res, ev):
+    """combine_state_pair(a, b): the product state remembers the must-qualifiers of its two coordinates."""
+    q = set()
+    if len(args) >= 2:
+        q |= {("PAIR0", x) for x in args[0].quals}
+        q |= {("PAIR1", x) for x in args[1].quals}
+    return res.with_quals(q) if q else res
+
+
 def _hook_epsilon_new(interp, fi, recv, args, kwargs, res, ev):
     return res
 
@@ -222,6 +231,7 @@ def install(interp):
     for tfc in (TF, NTF):
         for m in ("__call__", "get_edges", "get_transitions_from", "to_dict", "__iter__"):
             hooks[tfc + "." + m] = _hook_delta
+    hooks[FA + "epsilon_nfa.combine_state_pair"] = _hook_pair
     for h in hooks:
         if h not in prog.functions:
             raise AnalysisError("model: hooked function vanished: %s" % h)
